@@ -453,6 +453,30 @@ func genC14(e *emitter, tier string) {
 			e.line(fmt.Sprintf("(c14 %s %s %s %s %s %s %s %s %s)", quote(sd.id), sexpTypeRef(tr), sexpValue(v), fsStr,
 				sexpPaths(sub), rem, ext, merged, extractAll))
 		}
+		// selections naming interior nodes (prefixes of leaf paths), alone and next to leaves
+		// beneath and beside them: what is taken from beneath a selected node
+		if len(cand) > 0 {
+			for k := 0; k < 2; k++ {
+				var sub []fieldpath.Path
+				lp := cand[e.rng.Intn(len(cand))]
+				if len(lp) > 1 {
+					sub = append(sub, lp[:1+e.rng.Intn(len(lp)-1)].Copy())
+				}
+				for _, p := range cand {
+					if e.rng.Intn(4) == 0 {
+						sub = append(sub, p)
+					}
+				}
+				if len(sub) == 0 {
+					continue
+				}
+				s := fieldpath.NewSet(sub...)
+				rem := guard(func() string { return sexpTypedResult(tv.RemoveItems(s), nil, false) })
+				ext := guard(func() string { return sexpTypedResult(tv.ExtractItems(s), nil, false) })
+				extk := guard(func() string { return sexpTypedResult(tv.ExtractItems(s, typed.WithAppendKeyFields()), nil, false) })
+				e.line(fmt.Sprintf("(c14.interior %s %s %s %s %s %s %s)", quote(sd.id), sexpTypeRef(tr), sexpValue(v), sexpPaths(sub), rem, ext, extk))
+			}
+		}
 		if len(cand) <= maxExh && i%4 == 0 {
 			// exhaustive over all subsets of the candidate leaves
 			for mask := 0; mask < 1<<uint(len(cand)); mask++ {
